@@ -16,6 +16,7 @@ from __future__ import annotations
 import itertools
 from collections import Counter
 
+import numpy as np
 from hypothesis import strategies as st
 
 import pymbolic.primitives as p
@@ -72,7 +73,10 @@ def counting(cls):
             except Exception:
                 k = (_name, type(expr).__name__, id(expr))
             r = _orig(self, expr, *args, **kwargs)
-            self._calls[k] += 1   # completed computations only: exceptions are not memoized
+            if not isinstance(expr, (list, np.ndarray)):
+                # completed computations only (exceptions are not memoized), and
+                # hashable keys only (lists and arrays are mapped uncached by design)
+                self._calls[k] += 1
             return r
         ns[name] = wrapper
     sub = type("Counting" + cls.__name__, (cls,), ns)
@@ -178,10 +182,23 @@ def _ambiguous(objs):
     return False
 
 
+class _Fresh:
+    """a list / object array argument that the caller builds, maps and throws away:
+    the next one may well get the same address"""
+
+    def __init__(self, spec):
+        self.spec = spec
+
+    def make(self):
+        return build(self.spec)
+
+
 def build_pool(pool_spec):
     objs = []
     for entry in pool_spec:
-        if isinstance(entry, dict):          # {"same": i}: the identical object again
+        if isinstance(entry, dict) and "fresh" in entry:
+            objs.append(_Fresh(entry["fresh"]))   # built anew for every call, then dropped
+        elif isinstance(entry, dict):        # {"same": i}: the identical object again
             objs.append(objs[entry["same"] % len(objs)] if objs else None)
         else:
             objs.append(build(entry))
@@ -208,7 +225,7 @@ def check_history(spec):
         raise HarnessError(which)
     plain_f, cached_f, alphabet = pairs[which]
     pool = build_pool(spec["pool"])
-    amb = _ambiguous(pool)
+    amb = _ambiguous([q.make() if isinstance(q, _Fresh) else q for q in pool])
     cached = cached_f()
     cached._calls = Counter()
     other = cached_f() if spec.get("interleave") else None
@@ -223,6 +240,9 @@ def check_history(spec):
     walk_valid = True
     for step, (i, a) in enumerate(spec["calls"]):
         e = pool[i % len(pool)]
+        if isinstance(e, _Fresh):
+            e = e.make()
+            res.label("fresh-unhashable-argument")
         args = alphabet[a % len(alphabet)]
         kw = RENAME_KW[(a // len(alphabet)) % len(RENAME_KW)] if which == "rename" else {}
         res.compared()
@@ -320,7 +340,8 @@ def check_history(spec):
     if amb:
         res.label("ambiguous-history")
     res.nontrivial = len(spec["calls"]) >= 3 and (recur_eq or recur_retyped or two_args)
-    res.sample = {"pair": which, "pool": [repr(x)[:80] for x in pool],
+    res.sample = {"pair": which, "pool": [repr(x.spec if isinstance(x, _Fresh) else x)[:80]
+                                          for x in pool],
                   "calls": spec["calls"][:10]}
     return res
 
@@ -331,6 +352,8 @@ def _opt_check(res, cls, plain, pool, calls, argsets, tag, kind, memoizes=True,
     strict_of, amb_keys = {}, set()
     for step, (i, a) in enumerate(calls):
         e = pool[i % len(pool)]
+        if isinstance(e, _Fresh):
+            e = e.make()
         args = argsets[a % len(argsets)]
         kw = kwsets[(a // len(argsets)) % len(kwsets)]
         res.compared()
@@ -389,10 +412,11 @@ def check_optfree(spec):
         memo = not (combo[2] and not combo[3])
         _opt_check(res, cls, O.PlainRenamer, pool, spec["calls"], [()], _tag(combo, names),
                    "optfree", memoizes=memo)
-    res.nontrivial = len(spec["calls"]) >= 2 and any(walk.children(x) for x in pool)
+    res.nontrivial = len(spec["calls"]) >= 2 and any(
+        walk.children(x) for x in pool if not isinstance(x, _Fresh))
     res.label("optimizer")
-    res.sample = {"pool": [repr(x)[:80] for x in pool], "calls": spec["calls"][:8],
-                  "combinations": len(O.OPT_FREE)}
+    res.sample = {"pool": [repr(getattr(x, "spec", x))[:80] for x in pool],
+                  "calls": spec["calls"][:8], "combinations": len(O.OPT_FREE)}
     return res
 
 
@@ -412,7 +436,8 @@ def check_optargs(spec):
                    _tag(combo, names), "optargs", memoizes=not combo[1])
     res.nontrivial = len({a for _, a in spec["calls"]}) >= 2
     res.label("optimizer")
-    res.sample = {"pool": [repr(x)[:80] for x in pool], "calls": spec["calls"][:8]}
+    res.sample = {"pool": [repr(getattr(x, "spec", x))[:80] for x in pool],
+                  "calls": spec["calls"][:8]}
     return res
 
 
@@ -424,6 +449,57 @@ def _known_retyped_composite(sub, spec, fail):
 
 
 KNOWN = {"F38": _known_retyped_composite}
+
+def check_optwalk(spec):
+    """optimized walk mappers: every distinct node post-visited exactly once per
+    instance (unless recursion bypasses the cache by the user's choice of options)"""
+    res = Result()
+    pool = build_pool(spec["pool"])
+    if O.OPT_WALK_ERRORS:
+        c, exc = sorted(O.OPT_WALK_ERRORS.items())[0]
+        res.fail("optwalk:optimize_mapper-raised", f"options {c}: {type(exc).__name__}: {exc}")
+    names = ("inline_rec", "inline_cache", "inline_get_cache_key")
+    for combo, cls in sorted(O.OPT_WALK.items()):
+        tag = _tag(combo, names)
+        memo = not (combo[0] and not combo[1])
+        inst = cls()
+        seen_total = set()
+        for step, (i, _a) in enumerate(spec["calls"]):
+            e = pool[i % len(pool)]
+            if isinstance(e, _Fresh):
+                continue
+            if _ambiguous([e]) or any(_ambiguous([e, q]) for q in pool
+                                      if not isinstance(q, _Fresh)):
+                continue
+            res.compared()
+            del O.CALLS[:]
+            try:
+                inst(e)
+            except (ValueError, NotImplementedError):
+                break     # node types the walk mapper refuses: C04
+            except Exception as exc:
+                res.fail(f"optwalk:{tag}:raised:{type(exc).__name__}", f"{e!r}: {exc!r}")
+                break
+            visited = Counter((c[1], c[2]) for c in O.CALLS)
+            want = {(type(n).__name__, repr(n)) for _, n in walk.occurrences(e)}
+            new = want - seen_total
+            if memo:
+                if set(visited) != new or (visited and max(visited.values()) > 1):
+                    res.fail(f"optwalk:{tag}:visits-differ",
+                             f"optimized walk mapper {tag}, call {step} on {e!r}: "
+                             f"post-visited {sorted(visited.items())[:6]}..., expected each "
+                             f"of the {len(new)} not yet seen distinct nodes once")
+                    break
+            elif not set(visited) >= new:
+                res.fail(f"optwalk:{tag}:node-not-visited", f"{e!r}")
+                break
+            seen_total |= want
+    res.label("optimizer")
+    res.nontrivial = len(spec["calls"]) >= 2
+    res.sample = {"pool": [repr(getattr(x, "spec", x))[:80] for x in pool],
+                  "calls": spec["calls"][:8]}
+    return res
+
 
 KWARGSETS = [(frozenset({"x"}),), (frozenset({"y", "f"}),), (frozenset({"x", "y"}),)]
 KWSETS = ({}, {"suffix": "_k"}, {"suffix": "_j"})
@@ -441,11 +517,12 @@ def check_optkw(spec):
                    _tag(combo, names), "optkw", memoizes=not combo[0], kwsets=KWSETS)
     res.nontrivial = len({a for _, a in spec["calls"]}) >= 2
     res.label("optimizer")
-    res.sample = {"pool": [repr(x)[:80] for x in pool], "calls": spec["calls"][:8]}
+    res.sample = {"pool": [repr(getattr(x, "spec", x))[:80] for x in pool],
+                  "calls": spec["calls"][:8]}
     return res
 
 
-CHECKS = {"history": check_history, "optkw": check_optkw, "optfree": check_optfree, "optargs": check_optargs}
+CHECKS = {"history": check_history, "optkw": check_optkw, "optwalk": check_optwalk, "optfree": check_optfree, "optargs": check_optargs}
 
 
 # {{{ generators
@@ -521,6 +598,11 @@ def pool_for(draw, which):
                                  ["CommonSubexpression", b, None, "pymbolic_expr"]]])
         else:
             pool.append(["Product", [b, draw(st.sampled_from(base))]])
+    if which in ("rename", "subst", "evaluate", "depend") and draw(st.integers(0, 2)) == 0:
+        kind = draw(st.sampled_from(("List", "NpArray")))
+        for _ in range(draw(st.integers(2, 3))):
+            items = [draw(st.sampled_from(base)) for _ in range(draw(st.integers(1, 3)))]
+            pool.append({"fresh": [kind, items]})
     return pool
 
 
@@ -557,8 +639,10 @@ def generate(ctx):
     ctx.run_given(opt_case(), lambda s: ctx.judge("optfree", s), ctx.n(600, 8000))
     ctx.run_given(opt_case(), lambda s: ctx.judge("optargs", s), ctx.n(1500, 16000))
     ctx.run_given(opt_case(), lambda s: ctx.judge("optkw", s), ctx.n(1200, 12000))
+    ctx.run_given(opt_case(), lambda s: ctx.judge("optwalk", s), ctx.n(800, 10000))
     ctx.exhaustive["optimizer option combinations (argument-free / argument-passing)"] = \
-        (len(O.OPT_FREE) + len(O.OPT_ARGS) + len(O.OPT_KW)) if ctx.shard == 0 else 0
+        (len(O.OPT_FREE) + len(O.OPT_ARGS) + len(O.OPT_KW) + len(O.OPT_WALK)) \
+        if ctx.shard == 0 else 0
 
 
 MANIFEST = {
